@@ -50,7 +50,24 @@ def triples(M):
             'n_stored': n_stored, 'dtype': str(M.dtype), 'format': M.getformat()}
 
 
+def styled(v, style):
+    """the same truth value spelled as the callers do: bool / int / numpy bool /
+    None for False"""
+    if style == 'int':
+        return int(bool(v))
+    if style == 'numpy':
+        return np.bool_(bool(v))
+    if style == 'none' and not v:
+        return None
+    return bool(v)
+
+
 def run_query(fd, q):
+    q = dict(q)
+    st = q.get('flag_style', 'bool')
+    for key in ('order1', 'self_loop'):
+        if key in q:
+            q[key] = styled(q[key], st)
     k = q['kind']
     md = 'nodal' if q.get('nodal') else 'elemental'
     if k == 'inc':
@@ -80,7 +97,14 @@ def apply_mod(fd, q):
     """in-place modification of the mesh between two queries"""
     if q['op'] == 'set_conn':
         eids = [int(x) for x in fd.elements.ids]
-        fd.elements.data = np.array([q['rows'][str(e)] for e in eids], dtype=np.int64)
+        new = np.array([q['rows'][str(e)] for e in eids], dtype=np.int64)
+        if q.get('inplace'):
+            # the same array edited in place and assigned back
+            conn = fd.elements.data
+            conn[...] = new
+            fd.elements.data = conn
+        else:
+            fd.elements.data = new
     elif q['op'] == 'remove_useless_nodes':
         fd.remove_useless_nodes()
     else:
